@@ -600,6 +600,9 @@ def gen_fault_scripts(tier, seed, variant):
     # (the in-place rehash and its unwind guard are reached from insert / entry / reserve here)
     for i in range(n // 3):
         out.append(arm_script(rng, gen_map.make_run_script(rng, f"fu{seed}_{i}"), rng.choice([0.1, 0.25])))
+    # the (callback class x operation) matrix: every pair in every run
+    for i in range(n // 2):
+        out.append(gen_map.make_fault_matrix_script(rng, f"fm{seed}_{i}"))
     return "".join(out)
 
 def arm_script(rng, blk, p):
@@ -686,7 +689,7 @@ def check_c04(run):
     return script_property(
         run, gen_fault_scripts,
         relevant=lambda f: f.kind in ("CRASH", "A-FAIL", "B-FAIL", "H-FAIL"),
-        rule="HashMap histories in which a fraction (15-50%) of the operations is preceded by a fault arming: the k-th Hash call (k in 0..13) or the hashing of a chosen key panics, the k-th Eq call, the k-th destructor, the k-th Clone, the k-th retain/extract_if predicate call panics, or the allocator refuses a fallible request; drop and no-drop element types, clone / clone_from / == in a third of the scripts; after catch_unwind the dumped state must satisfy the full invariant (wf_check: len = number of FULL buckets, every stored element reachable by lookup), its contents must be explainable from the pre-state and the operation's arguments, and the registry must show no double drop and no leak unless the panic came out of a destructor; corpus: the replays of the two defects found and fixed (F1, F3)",
+        rule="HashMap histories in which a fraction (15-50%) of the operations is preceded by a fault arming: the k-th Hash call (k in 0..13) or the hashing of a chosen key panics, the k-th Eq call, the k-th destructor, the k-th Clone, the k-th retain/extract_if predicate call panics, or the allocator refuses a fallible request; drop and no-drop element types, clone / clone_from / == in a third of the scripts; after catch_unwind the dumped state must satisfy the full invariant (wf_check: len = number of FULL buckets, every stored element reachable by lookup), its contents must be explainable from the pre-state and the operation's arguments, and the registry must show no double drop and no leak unless the panic came out of a destructor; plus a (callback class x operation) matrix -- Drop x {retain, clear, drain, drop, insert/remove of a present key, into_iter, extend, clone_from}, predicate x {retain, extract_if}, Eq x {insert, remove, get, entry}, Hash x {insert, reserve, entry, shrink_to_fit, extend, insertion / rustc_entry into a table at exact capacity full of tombstones (in-place rehash)}, Clone x {clone, clone_from} -- with the k-th call (k in 0..5) panicking, every pair in every run; corpus: the replays of the two defects found and fixed (F1, F3)",
         nontrivial_keys=("unwind",))
 
 def check_c05(run):
